@@ -1467,6 +1467,10 @@ def _canon(e):
                 (isinstance(fn.value, ast.Attribute) and ast.unparse(fn.value) in ("np.linalg", "numpy.linalg"))
             if base_is_mod:
                 name = _FUNC_ALIASES.get(d, d)
+                # f(a if c else b) is f(a) if c else f(b) for a library function (called once either way)
+                if len(e.args) == 1 and not e.keywords and isinstance(e.args[0], ast.IfExp):
+                    return _canon(ast.IfExp(test=e.args[0].test, body=ast.Call(func=e.func, args=[e.args[0].body], keywords=[]),
+                                            orelse=ast.Call(func=e.func, args=[e.args[0].orelse], keywords=[])))
                 if name == "np.matmul" and len(args) == 2 and not kws:
                     return _canon(ast.BinOp(left=e.args[0], op=ast.MatMult(), right=e.args[1]))
                 if name in _SEQ_FUNCS and args and isinstance(args[0], tuple) and args[0] and args[0][0] in ("list", "tuple"):
